@@ -12,6 +12,13 @@ package main
 //   scale manymore <n>        one `more` call answered by n replies: all arrive in order, all but the last
 //                             flagged continues
 //
+//   scale closetwice <n>      a client connection is closed twice (the second Close only reports an error), then n
+//                             connections are open at the same time, each making its own calls: every connection
+//                             gets exactly the replies to its own calls
+//   scale overlap <bytes>     two connections whose big replies are under way at the same time (the first client
+//                             reads late, so that its reply is still being written while the second one is
+//                             encoded): each client gets its own reply unchanged
+//
 //   line: scale <scenario> <n> | <bad> <first-problem>
 
 import (
@@ -19,6 +26,7 @@ import (
 	"crypto/sha256"
 	"encoding/json"
 	"fmt"
+	"strings"
 	"sync"
 	"time"
 
@@ -34,7 +42,7 @@ type scaleIface struct {
 
 func (s *scaleIface) VarlinkGetName() string { return "org.example.scale" }
 func (s *scaleIface) VarlinkGetDescription() string {
-	return "interface org.example.scale\nmethod Echo(s: string) -> (s: string)\nmethod Seq(i: int) -> (i: int)\nmethod Count(n: int) -> (i: int)\n"
+	return "interface org.example.scale\nmethod Echo(s: string) -> (s: string)\nmethod Seq(i: int) -> (i: int)\nmethod Fill(c: string, n: int) -> (s: string)\nmethod Count(n: int) -> (i: int)\n"
 }
 func (s *scaleIface) VarlinkDispatch(ctx context.Context, c varlink.Call, method string) error {
 	switch method {
@@ -50,6 +58,15 @@ func (s *scaleIface) VarlinkDispatch(ctx context.Context, c varlink.Call, method
 		s.gotHash = sha256.Sum256([]byte(in.S))
 		s.mu.Unlock()
 		return c.Reply(ctx, map[string]string{"s": in.S})
+	case "Fill":
+		var in struct {
+			C string `json:"c"`
+			N int64  `json:"n"`
+		}
+		if err := c.GetParameters(&in); err != nil || len(in.C) != 1 {
+			return c.ReplyInvalidParameter(ctx, "parameters")
+		}
+		return c.Reply(ctx, map[string]string{"s": strings.Repeat(in.C, int(in.N))})
 	case "Seq":
 		var in struct {
 			I int64 `json:"i"`
@@ -98,6 +115,7 @@ func init() {
 			n    int
 		}
 		plan := []sc{
+			{"closetwice", 3}, {"overlap", 1 << 20},
 			{"hugeframe", 4<<20 - 64}, {"hugeframe", 4 << 20}, {"hugeframe", 4<<20 + 4097}, {"hugeframe", 16<<20 + 1},
 			{"manyconns", 300}, {"manycalls", 20000}, {"manymore", 20000}, {"hugeframe", 1 << 20},
 			{"manyconns", 70}, {"manycalls", 5000}, {"manymore", 70000}, {"hugeframe", 9 << 20},
@@ -225,6 +243,98 @@ func init() {
 					}
 				}
 				c.Close()
+			case "closetwice":
+				c0, err := varlink.NewConnection(cctx, addr)
+				if err != nil {
+					return err
+				}
+				var v0 string
+				if err := c0.GetInfo(cctx, &v0, nil, nil, nil, nil); err != nil || v0 != "scale" {
+					fail("first-connection-not-served")
+				}
+				c0.Close()
+				c0.Close() // a deferred Close after an explicit one: reports an error, changes nothing
+				conns := make([]*varlink.Connection, p.n)
+				for k := range conns {
+					if conns[k], err = varlink.NewConnection(cctx, addr); err != nil {
+						return err
+					}
+				}
+				// all open at the same time; calls strictly one after the other, so that a reply can only
+				// turn up at the wrong connection if the connections share something they must not
+				for round := 0; round < 3 && bad == 0; round++ {
+					for k := p.n - 1; k >= 0 && bad == 0; k-- {
+						want := int64(1000*round + k)
+						var out struct {
+							I int64 `json:"i"`
+						}
+						octx, ocancel := context.WithTimeout(cctx, 3*time.Second)
+						err := conns[k].Call(octx, "org.example.scale.Seq", map[string]int64{"i": want}, &out)
+						ocancel()
+						if err != nil {
+							fail("connection-%d-of-%d-got-no-reply-to-its-call", k, p.n)
+						} else if out.I != want {
+							fail("connection-%d-of-%d-got-the-reply-to-another-call", k, p.n)
+						}
+					}
+				}
+				for _, c := range conns {
+					c.Close()
+				}
+			case "overlap":
+				a, err := varlink.NewConnection(cctx, addr)
+				if err != nil {
+					return err
+				}
+				// A asks for a reply far bigger than the socket buffers and does not read yet: the service is
+				// in the middle of writing it while the replies to the others are produced
+				recvA, err := a.Send(cctx, "org.example.scale.Fill", map[string]interface{}{"c": "A", "n": p.n}, 0)
+				if err != nil {
+					fail("send-failed")
+				}
+				time.Sleep(100 * time.Millisecond)
+				var mu sync.Mutex
+				var wg sync.WaitGroup
+				for k := 0; k < 8; k++ {
+					wg.Add(1)
+					go func(k int) {
+						defer wg.Done()
+						letter := string(rune('B' + k))
+						b, err := varlink.NewConnection(cctx, addr)
+						if err != nil {
+							mu.Lock()
+							fail("connect-failed")
+							mu.Unlock()
+							return
+						}
+						defer b.Close()
+						for r := 0; r < 3; r++ {
+							var out struct {
+								S string `json:"s"`
+							}
+							err := b.Call(cctx, "org.example.scale.Fill", map[string]interface{}{"c": letter, "n": p.n}, &out)
+							mu.Lock()
+							if err != nil {
+								fail("other-connection-call-failed:%T", err)
+							} else if out.S != strings.Repeat(letter, p.n) {
+								fail("other-connection-got-other-bytes-than-its-reply")
+							}
+							mu.Unlock()
+						}
+					}(k)
+				}
+				wg.Wait()
+				if recvA != nil {
+					var outA struct {
+						S string `json:"s"`
+					}
+					if _, err := recvA(cctx, &outA); err != nil {
+						fail("first-connection-receive-failed:%T", err)
+					} else if outA.S != strings.Repeat("A", p.n) {
+						fail("first-connection-got-other-bytes-than-its-reply")
+					}
+				}
+				a.Close()
 			case "manymore":
 				c, err := varlink.NewConnection(cctx, addr)
 				if err != nil {
